@@ -8,7 +8,7 @@ ALL = ["C%02d" % i for i in range(1, 21)]
 
 CHECKS = {
  "C19": dict(level="exploration",
-   text="Configuration exploration through the real fitgen command built from the tree: every bundled workbook in both input forms twice, the repeat regenerating in place over a larger earlier output (deviation 0) and every single-row toggle of the product-profile column that an independent dependency analysis allows (deviation 1; quick tier: component/subfield-bearing messages of the newest workbook). Each output is checked for determinism, declared SDK version, agreement with an independent stdlib reading of the workbook (go/ast audit) and for compiling together with the support code (go/types, errors classified).",
+   text="Configuration exploration through the real fitgen command built from the tree: every bundled workbook in both input forms twice, the repeat regenerating in place over a larger earlier output, the -sdk flag overriding / supplying the version of zip inputs (deviation 0) and every single-row toggle of the product-profile column that an independent dependency analysis allows (deviation 1; quick tier: component/subfield-bearing messages of the newest workbook). Each output is checked for determinism, declared SDK version, agreement with an independent stdlib reading of the workbook (go/ast audit) and for compiling together with the support code (go/types, errors classified).",
    note="Dependency-closed subsets beyond deviation 1 are not enumerated (2^1000). Compile check is go/types with the source importer, not the gc back end. Stock output vs today's support code skew is a listed finding per workbook.",
    technique="deviation-bounded exhaustive configuration enumeration through the real command with an independent workbook reader as oracle", ref="3 C19"),
  "C20": dict(level="exploration",
@@ -24,15 +24,15 @@ CHECKS = {
    note="Interleavings are sequentially consistent at the granularity of the scheduling points; weak-memory effects are only sampled by the race-detector pass. Preemption bound completed: 2 (quick) / 4 (thorough) for pairs. The access-level pass leaves out the calls that hit the listed accumulator finding; if the package starts using locks/atomics the access-conflict oracle stands down (never a false alarm) and the race pass remains.",
    technique="stateless model checking with a controlled scheduler (environment-call and instrumented-access scheduling points), preemption bounding + separate race-detector pass", ref="3 C09"),
  "C05": dict(level="exploration",
-   text="Bounded exhaustive enumeration of Files built through the public API (17 file types x every container member x field subsets incl. union-definition mixes x boundary values x byte order x header form); every output is parsed by an independent strict FIT grammar parser and every wire value compared with a reference encoding of the Go value; File header/CRC fields checked after the call, also when they held stale values before it, and across encode / grow / encode / shrink / encode of the same File object.",
+   text="Bounded exhaustive enumeration of Files built through the public API (17 file types x every container member x field subsets incl. union-definition mixes x boundary values x byte order x header form); every output is parsed by an independent strict FIT grammar parser and every wire value compared with a reference encoding of the Go value; File header/CRC fields checked after the call, also when they held stale values before it, and across encode / grow / encode / shrink / encode of the same File object; the same bytes whatever io.Writer receives them (7 writer kinds).",
    note="Reference encoder and parser live in harness/fitmodel and harness/props/filegen.go. In-domain Files start from the all-invalid file_id (NewFile leaves Go zero values, which are outside the representable domain).",
    technique="bounded exhaustive input enumeration with an independent grammar parser as oracle", ref="3 C05"),
  "C06": dict(level="exploration",
-   text="The same in-domain File family (plus all ordered field pairs per message in the thorough tier and local timestamps 18 zone offsets away from a UTC reference in the same or an earlier message, incl. offsets that are not whole minutes) is encoded and decoded back; per-member counts, order and every field are compared under exactly the four relaxations the property states.",
+   text="The same in-domain File family (plus all ordered field pairs per message in the thorough tier and local timestamps 18 zone offsets away from a UTC reference in the same or an earlier message, incl. offsets that are not whole minutes; several local timestamps in one real daylight-saving zone across its transitions; every ordered triple of string values per string field) is encoded and decoded back; per-member counts, order and every field are compared under exactly the four relaxations the property states.",
    note="Component destinations are predicted by the C18 reference expansion; accumulated destinations are excluded when their source is set (C18 findings).",
    technique="bounded exhaustive input enumeration, round-trip oracle with stated relaxations", ref="3 C06"),
  "C07": dict(level="exploration",
-   text="A pool of tens of thousands of distinct accepted streams (model-generated families of C02/C12/C13/C18, out-of-profile-length strings and arrays, non-UTF-8 strings, corpus and crasher inputs) is driven through decode-encode-decode-encode-decode in both byte orders; Encode must succeed, the output must pass CheckIntegrity, generation 2 must equal generation 1 up to profile lengths and generation 3 must equal generation 2.",
+   text="A pool of tens of thousands of distinct accepted streams (model-generated families of C02/C12/C13/C18, out-of-profile-length strings and arrays, non-UTF-8 strings, string sequences longer-then-shorter, mix-family words, fully populated and sparse-after-rich messages, corpus and crasher inputs) is driven through decode-encode-decode-encode-decode in both byte orders; Encode must succeed, the output must pass CheckIntegrity, generation 2 must equal generation 1 up to profile lengths and generation 3 must equal generation 2.",
    note="Three listed findings (non-UTF-8 strings, one-pass expansion order, resized compressed_speed_distance) are attributed by exact defect models; accumulated destinations are excluded (C18 findings).",
    technique="bounded exhaustive input enumeration, multi-generation round-trip oracle", ref="3 C07"),
  "C03": dict(level="model_checking",
@@ -48,11 +48,11 @@ CHECKS = {
    note="Five local types x four definition variants in the words; all 16 local types at depth 2. Values are checked with the C02 model.",
    technique="explicit-state BFS over model slot states + exhaustive bounded words, each trace replayed on the decoder", ref="3 C13"),
  "C16": dict(level="model_checking",
-   text="All words up to the bound over 12 record groups x every truncation offset x all 8 option combinations; content, error and bytes consumed must equal the option-free run and the unknown-item lists must equal the model counters (bounded by completed / in-progress records on failure). Whole streams also with the options passed in every order and repeated (19 configurations). A generic form of the same oracle (counters derived from the independent parser, content from the reference decoder) runs over the mix words, the shared streams and every device file of the corpus under all 8 option sets.",
+   text="All words up to the bound over 12 record groups x every truncation offset x all 8 option combinations; content, error and bytes consumed must equal the option-free run and the unknown-item lists must equal the model counters (bounded by completed / in-progress records on failure). Whole streams also with the options passed in every order and repeated (19 configurations). A generic form of the same oracle (counters derived from the independent parser, content from the reference decoder) runs over the mix words, the shared streams and every device file of the corpus under all option configurations; DecodeChained over ordered pairs of mix-family files: per-member counters.",
    note="Logger is a counting sink that formats its arguments (to execute the debug branches).",
    technique="explicit enumeration of record sequences x crash points x configurations against reference counters", ref="3 C16"),
  "C18": dict(level="model_checking",
-   text="Reference expansion/accumulation model (bit slices; 12/8/16-bit accumulators that restart per file) in lock-step with the decoder over every component source x boundary patterns x every container, all words of accumulating records up to the bound, histories of up to 3 files decoded separately and chained, and sources transmitted together with an explicit destination value. Mismatches are classified by exact defect models, so only the four listed findings are tolerated.",
+   text="Reference expansion/accumulation model (bit slices; 12/8/16-bit accumulators that restart per file) in lock-step with the decoder over every component source x boundary patterns x every container, all words of accumulating records up to the bound, histories of up to 3 files decoded separately and chained, sources transmitted together with an explicit destination value, and record words with a further file_id record in between. Mismatches are classified by exact defect models, so only the four listed findings are tolerated.",
    note="Known findings K1-K3 are generated code pinned by TestGenerator goldens; their defect models shadow the package-level accumulator over the worker's whole decode history.",
    technique="explicit enumeration of record sequences and file histories against a reference model with defect-model attribution", ref="3 C18"),
  "C02": dict(level="exploration",
@@ -60,31 +60,31 @@ CHECKS = {
    note="Model = harness/props/model.go (written from the FIT base-type rules). Value alphabets are boundary sets, not all 2^32 payloads. Messages that no file container exposes are not observable and not covered.",
    technique="bounded exhaustive input enumeration against a reference value model", ref="3 C02"),
  "C04": dict(level="fault_enumeration",
-   text="Exhaustive fault enumeration: every burst of <=16 bits at every bit position of each base file (2^15 patterns per position) must be rejected by both Decode and CheckIntegrity; all 65536 stored header CRC values x header variants must get the same verdict from all header-checking APIs as the reference CRC gives.",
+   text="Exhaustive fault enumeration: every burst of <=16 bits at every bit position of each base file (2^15 patterns per position) must be rejected by both Decode and CheckIntegrity; all 65536 stored header CRC values x header variants must get the same verdict from all header-checking APIs as the reference CRC gives; verdicts on valid and corrupted files must not depend on the reader's chunking (8 chunkings).",
    note="Base files are small (25-50 bytes) so that the burst space is complete; longer files in the thorough tier. Reference = bitwise CRC-16/ARC.",
    technique="exhaustive fault (bit-burst) enumeration + exhaustive header CRC value enumeration across APIs", ref="3 C04"),
  "C10": dict(level="model_checking",
-   text="Stateless exploration of the reader environment: the harness owns the io.Reader and enumerates its answers at every Read with deviation bounding (bound 2 from two default behaviours), plus complete cut-set enumeration of the minimal file and uniform chunkings across the internal buffer size; every schedule must consume exactly the frame and give the schedule-independent result; chained decoding equals per-member decoding; every ordered pair (and triple of short words) of mix-family files through DecodeChained against the reference decoder per member.",
+   text="Stateless exploration of the reader environment: the harness owns the io.Reader and enumerates its answers at every Read with deviation bounding (bound 2 from two default behaviours), plus complete cut-set enumeration of the minimal file and uniform chunkings across the internal buffer size; every schedule must consume exactly the frame and give the schedule-independent result; chained decoding equals per-member decoding; every ordered pair (and triple of short words) of mix-family files through DecodeChained against the reference decoder per member; 15 reader kinds (bytes.Reader, bytes.Buffer, bufio, os.File, io.Pipe, iotest shapes ...) with exact consumption where the reader can tell; every way of writing a file_id record through DecodeHeaderAndFileID vs Decode vs DecodeChained.",
    note="Menu of reader answers is finite (full/1/half/len-1/empty<=2/data+EOF). Bound 2 completed; all 2^24 cut sets in the thorough tier.",
    technique="deviation-bounded exhaustive exploration of environment (Read-answer) schedules on the real decoder", ref="3 C10"),
  "C11": dict(level="fault_enumeration",
-   text="Every cut offset and every read-fault offset (with/without data in the failing call) of every stream, through all six entry points and two read modes, against a frame model that says when an error is mandatory and which messages must be present in the partial File.",
+   text="Every cut offset and every read-fault offset (with/without data in the failing call) of every stream, through all six entry points and two read modes, against a frame model that says when an error is mandatory and which messages must be present in the partial File; the decoding calls bare and with decode options; streams whose trailing CRC has a zero byte or is 0x0000.",
    note="Streams are built by the reference builder, which supplies the record boundaries for the partial-content oracle.",
    technique="exhaustive crash-point (cut) and fault-offset enumeration against a frame model", ref="3 C11"),
  "C01": dict(level="exploration",
-   text="Bounded exhaustive input-shape exploration of the six decoding entry points under recover and a hang watchdog: the full single-field definition space the property names (message x field number x base-type byte x size x byte order; quick tier restricts field numbers and unknown base types as stated in evidence), header space, record-header space with every cut, and the corpus with cuts; the decoding calls are made bare and with decode options (all, each alone), which register deferred work before the header is read. Totality is a safety property over inputs, so exhaustive enumeration of the structured families is the strongest decision available short of proof.",
+   text="Bounded exhaustive input-shape exploration of the six decoding entry points under recover and a hang watchdog: the full single-field definition space the property names (message x field number x base-type byte x size x byte order; quick tier restricts field numbers and unknown base types as stated in evidence), header space, record-header space with every cut, and the corpus with cuts; the decoding calls are made bare and with decode options (all, each alone), which register deferred work before the header is read; headers that lie about the data size (every declared size on streams with long fields, under several read chunkings). Totality is a safety property over inputs, so exhaustive enumeration of the structured families is the strongest decision available short of proof.",
    note="Assumes: readers that never make progress are out of scope; arbitrary unstructured garbage is not enumerated. Panics are caught with recover, hangs with a 30 s watchdog.",
    technique="bounded exhaustive input enumeration on the real decoder (definition / header / record-header / cut spaces)", ref="3 C01"),
  "C15": dict(level="exploration",
-   text="Exhaustive enumeration of every (message, field) entry of the compiled-in profile, every struct field and every container member, statically (reflection against the exported tables) and dynamically (one-field stream decoded, located, re-encoded).",
+   text="Exhaustive enumeration of every (message, field) entry of the compiled-in profile, every struct field and every container member and every message File itself holds, statically (reflection against the exported tables) and dynamically (one-field stream decoded, located, re-encoded).",
    note="Trusted: verif-tagged read-only exports mirror the tables; reference mapping base type -> Go kind / invalid value is written from the FIT base-type table.",
    technique="exhaustive configuration enumeration of the profile tables with reflection + decode/encode confirmation", ref="3 C15"),
  "C14": dict(level="model_checking",
-   text="Complete explicit-state exploration of the checksum's transition system on the real code: all 65536 register states x 256 bytes against a bitwise CRC-16/ARC, plus Reset/residue from every state, all write partitions of short and long strings, io.Copy schedules, and first-use histories (each entry point as the first call a fresh process makes into the package, and ordered pairs of them). The state space is finite and fully enumerated, so within the stated reference this is a complete decision.",
+   text="Complete explicit-state exploration of the checksum's transition system on the real code: all 65536 register states x 256 bytes against a bitwise CRC-16/ARC, plus Reset/residue from every state, all write partitions of short and long strings, io.Copy schedules, first-use histories (each entry point as the first call a fresh process makes into the package, and ordered pairs of them) and every start alignment 0..16 of the data inside a larger buffer. The state space is finite and fully enumerated, so within the stated reference this is a complete decision.",
    note="Trusted: the 10-line bitwise reference CRC; Go runtime. States are reached through the public New().Write only.",
    technique="explicit-state enumeration of all (state,byte) transitions against a reference model", ref="3 C14"),
  "C17": dict(level="exploration",
-   text="Exhaustive enumeration of all 2^32 semicircle values for both coordinate types and all 2^32 second counts against integer-exact reference arithmetic; printed form on every value in the thorough tier; the same value types as the decoder produces them (131k boundary-spread values per field, both byte orders) must equal what the constructors give.",
+   text="Exhaustive enumeration of all 2^32 semicircle values for both coordinate types and all 2^32 second counts against integer-exact reference arithmetic; printed form on every value in the thorough tier; the same value types as the decoder produces them (131k boundary-spread values per field, both byte orders) must equal what the constructors give, also as the first record of a fresh decode.",
    note="Trusted: float64 exactness argument (s*45 < 2^53); hook exports of decodeDateTime/encodeTime. +90 degrees latitude is a listed known finding.",
    technique="exhaustive input enumeration (2^32 x 3) against an exact reference", ref="3 C17"),
 }
